@@ -2,7 +2,12 @@
 
 package database
 
-import "github.com/Vedant9500/WTF/internal/embedding"
+import (
+	"time"
+
+	"github.com/Vedant9500/WTF/internal/cache"
+	"github.com/Vedant9500/WTF/internal/embedding"
+)
 
 // Read-only accessors and one setter used by the external verification harness.
 // Compiled only with the build tag "verif"; nothing in the normal build refers to them.
@@ -28,3 +33,9 @@ func VerifIsCrossPlatformTool(command string) bool { return isCrossPlatformTool(
 
 // VerifHostPlatform exposes the platform name used for the host operating system.
 func VerifHostPlatform() string { return getCurrentPlatform() }
+
+// VerifSetCacheParams gives cdb a fresh, empty result cache with the given capacity and
+// entry lifetime (the defaults are 1000 entries and 5 minutes, out of reach of a test).
+func VerifSetCacheParams(cdb *CachedDatabase, capacity int, ttl time.Duration) {
+	cdb.cacheManager = cache.VerifNewManager(capacity, ttl)
+}
